@@ -5,8 +5,8 @@ deviations of the default configuration (k depends on the list class and the
 tier, ``None`` = full product) and, inside every such configuration, the
 COMPLETE grid of limits x amplitude factors (STA/LTA) or thresholds x
 amplitude factors (maximum value), the real ``sta_lta_window_rejection`` /
-``maximum_value_window_rejection`` is executed on fresh recordings and a fresh
-HVSR object and judged:
+``maximum_value_window_rejection`` is executed on fresh recordings and an HVSR
+object with renewed masks and judged:
 
 * returned list: the same objects, original order (identity matching);
 * clear windows (``ref.stalta``: every plausible reading of the sample counts
@@ -135,15 +135,24 @@ HVSR_KINDS = ["none", "trad", "azi", "trad_pre", "azi_pre"]
 def make_hvsr(kind, n):
     if kind == "none":
         return None
-    def trad(shapes):
-        t = HvsrTraditional(FREQ, A.curve_set(shapes[:n], 7))
-        if kind.endswith("_pre"):       # an object that already carries rejections
-            t.valid_window_boolean_mask = np.array([i % 2 == 1 for i in range(n)])
-            t.valid_peak_boolean_mask = np.array([i % 2 == 0 for i in range(n)])
-        return t
     if kind.startswith("trad"):
-        return trad(SHAPES_A)
-    return HvsrAzimuthal([trad(SHAPES_A), trad(SHAPES_B)], [0.0, 90.0])
+        h = HvsrTraditional(FREQ, A.curve_set(SHAPES_A[:n], 7))
+    else:
+        h = HvsrAzimuthal([HvsrTraditional(FREQ, A.curve_set(SHAPES_A[:n], 7)),
+                           HvsrTraditional(FREQ, A.curve_set(SHAPES_B[:n], 7))], [0.0, 90.0])
+    reset_masks(h, kind, n)
+    return h
+
+
+def reset_masks(h, kind, n):
+    """Give every mask a new array: all True (fresh object) or, for the *_pre
+    kinds, the state of an object that already carries rejections."""
+    if h is None:
+        return
+    pre = kind.endswith("_pre")
+    for t in ([h] if kind.startswith("trad") else h.hvsrs):
+        t.valid_window_boolean_mask = np.array([i % 2 == 1 if pre else True for i in range(n)])
+        t.valid_peak_boolean_mask = np.array([i % 2 == 0 if pre else True for i in range(n)])
 
 
 # ---------------------------------------------------------------------------
@@ -259,7 +268,7 @@ _SINGLE = {}
 
 
 def single_stalta(ctx, root, w, comps, dt, sta, lta, lo, hi, factor):
-    """Decision of the real code for the one-window list [w] (memoised per process)."""
+    """Decision of the real code for the one-window list [w] (memoised within a root)."""
     key = (w, comps, dt, sta, lta, lo, hi, factor)
     if key in _SINGLE:
         return _SINGLE[key]
@@ -297,13 +306,14 @@ def stalta_case(ctx, root, ws, case):
     table = {}
     patterns = set()
     for factor in FACTORS:
+        h = make_hvsr(kind, len(ws))        # one object per factor; masks are renewed before every call
         for lo, hi in LIMITS:
             detail = dict(fn="sta_lta_window_rejection", windows=ws, dt=dt, n_samples=n,
                           components=comps, sta_seconds=sta, lta_seconds=lta, min_ratio=lo,
                           max_ratio=hi, factor=factor, hvsr=kind,
                           signals="hvmc.checks.c13.window_arrays(name, dt)[component] * factor")
             recs = make_records(ws, dt, factor)
-            h = make_hvsr(kind, len(ws))
+            reset_masks(h, kind, len(ws))
             ctx.count("states")
             try:
                 out = sta_lta_window_rejection(recs, sta_seconds=sta, lta_seconds=lta,
@@ -415,6 +425,7 @@ def maxval_case(ctx, root, ws, case):
     patterns = set()
     for factor in FACTORS:
         maxima = [window_maxima(w, factor) for w in ws]
+        h = make_hvsr(kind, len(ws))        # one object per factor; masks are renewed before every call
         for normalized, thr0 in CRITS:
             thr = thr0 if normalized else thr0 * factor
             detail = dict(fn="maximum_value_window_rejection", windows=ws, dt=dt, components=comps,
@@ -422,7 +433,7 @@ def maxval_case(ctx, root, ws, case):
                           largest_abs=maxima,
                           signals="hvmc.checks.c13.window_arrays(name, dt)[component] * factor")
             recs = make_records(ws, dt, factor)
-            h = make_hvsr(kind, len(ws))
+            reset_masks(h, kind, len(ws))
             ctx.count("states")
             mode = "normalized" if normalized else "absolute"
             try:
@@ -448,7 +459,7 @@ def maxval_case(ctx, root, ws, case):
             compared = False
             for i, e in enumerate(exp):
                 if e is None:
-                    ctx.count("knife_edge")
+                    ctx.count("max_undecided_tie_or_ambiguous")
                     continue
                 compared = True
                 ctx.count("max_kept" if e else "max_rejected")
@@ -487,24 +498,28 @@ def plan(tier):
     if tier == "quick":
         return [
             ("sta_lta", 2, l1, 1, 1),
-            ("sta_lta", 1, l2, 2, 1),
-            ("sta_lta", 1, r4_3, 2, 1),
+            ("sta_lta", 1, l2, 4, 1),
+            ("sta_lta", 0, r4_3, 8, 1),
             ("sta_lta", 0, r3_4, 9, 1),
-            ("maximum_value", None, l1 + l2, 4, 1),
+            ("maximum_value", None, l1, 2, 1),
+            ("maximum_value", 1, l2, 8, 1),
             ("maximum_value", 1, r4_3, 8, 1),
             ("maximum_value", 0, r3_4, 27, 1),
         ]
-    in_r4 = {tuple(x) for x in r4_4}
-    rest4 = [x for x in l4 if tuple(x) not in in_r4]
+    def minus(lists, sub):
+        drop = {tuple(x) for x in sub}
+        return [x for x in lists if tuple(x) not in drop]
     return [
         ("sta_lta", None, l1, 1, 4),
-        ("sta_lta", 2, l2, 1, 1),
-        ("sta_lta", 1, l3, 4, 1),
-        ("sta_lta", 1, r4_4, 2, 1),
-        ("sta_lta", 0, rest4, 64, 1),
-        ("maximum_value", None, l1 + l2 + l3, 8, 1),
-        ("maximum_value", None, r4_4, 4, 1),
-        ("maximum_value", 0, rest4, 128, 1),
+        ("sta_lta", 2, l2, 2, 2),
+        ("sta_lta", 1, r4_3, 8, 1),
+        ("sta_lta", 0, minus(l3, r4_3), 32, 1),
+        ("sta_lta", 1, r3_4, 3, 1),
+        ("sta_lta", 0, minus(l4, r3_4), 64, 1),
+        ("maximum_value", None, l1 + l2, 8, 1),
+        ("maximum_value", 1, l3, 16, 1),
+        ("maximum_value", 1, r4_4, 8, 1),
+        ("maximum_value", 0, minus(l4, r4_4), 128, 1),
     ]
 
 
@@ -524,6 +539,7 @@ def run_root(root, ctx, tier):
     p, n = root.get("part", [0, 1])
     cases = cases[p::n]
     runner = stalta_case if fn == "sta_lta" else maxval_case
+    _SINGLE.clear()         # real-code memo lives within one root: counts do not depend on scheduling
     for ws in root["lists"]:
         for case in cases:
             ctx.count("configurations")
